@@ -106,6 +106,12 @@ def silent : Kind → Bool
 
 def wantCtx (k : Kind) : CtxSrc := if background k then .handshake else .caller
 
+/-- The context handed to the before-request function is the right one. The legacy connect is made synchronously by
+    the operation that starts the transport (the handshake), so its own `ctx` parameter is as good as a context
+    derived from it. -/
+def ctxOk (k : Kind) (s : CtxSrc) : Bool :=
+  s == wantCtx k || (k == .connect && s == .caller)
+
 /-- The URL is the configured one for every configuration (custom path included). -/
 def urlOk (k : Kind) (c : Client) (u : Url) : Bool :=
   match c, k with
@@ -131,7 +137,7 @@ def missingFor (k : Kind) (p : ReqPath) : List Aspect :=
   (if p.usesClient then [] else [.httpClient]) ++
   (if p.beforeCalls == 1 && p.beforeOrdered then [] else [.beforeRequest]) ++
   (if p.beforeCalls == 0 then [] else
-    (if p.beforeCtx == wantCtx k then [] else [.ctx]) ++ (if p.beforeErrReturns then [] else [.errorBlocks]))
+    (if ctxOk k p.beforeCtx then [] else [.ctx]) ++ (if p.beforeErrReturns then [] else [.errorBlocks]))
 
 /-- The customisation aspects this path does not honour (an unknown function honours none). -/
 def missing (p : ReqPath) : List Aspect :=
@@ -189,7 +195,7 @@ def pathOkOf (cfg : Cfg) (k : Kind) (p : ReqPath) : Bool :=
   | _, _, _ => false
 
 def ctxObs (k : Kind) : CtxSrc → CtxObs
-  | .caller => if background k then .other else .caller
+  | .caller => if k == .connect then .handshake else if background k then .other else .caller
   | .handshake => if background k then .handshake else .other
   | .background => .none
   | .none => .other
